@@ -51,6 +51,8 @@ pub struct GenOpts {
     pub custom_help: bool,
     /// chains of `adjacent()` commands (`cmd1 --a cmd2 --b cmd1 ..`)
     pub adjacent_cmds: bool,
+    /// a branch of a (non-repeated) choice may be an adjacent group `--point X Y`
+    pub adjacent_branch: bool,
     /// `cmd.fallback(..)` / `cmd.fallback_with(..)`: a subcommand with a default
     pub cmd_fallback: bool,
     /// `positional(..).hide()` under the optional/repeating wrapper
@@ -93,6 +95,7 @@ impl GenOpts {
             adjacent_in_adjacent: false,
             custom_help: false,
             adjacent_cmds: false,
+            adjacent_branch: false,
             cmd_fallback: false,
             hidden_positionals: false,
             adjacent_cmd_default_word: false,
@@ -131,6 +134,7 @@ impl GenOpts {
             adjacent_in_adjacent: false,
             custom_help: false,
             adjacent_cmds: false,
+            adjacent_branch: false,
             cmd_fallback: false,
             hidden_positionals: false,
             adjacent_cmd_default_word: false,
@@ -901,6 +905,12 @@ impl<'a> Pool<'a> {
                 } else {
                     branches.push(self.simple_required_field());
                 }
+            } else if self.o.adjacent_branch && self.rng.chance(1, 4) {
+                let mut fields = vec![Spec::Item(self.flag_item(Leaf::ReqFlag))];
+                for _ in 0..self.rng.range(1, 2) {
+                    fields.push(Spec::Item(self.pos_item(Strict::Any)));
+                }
+                branches.push(Spec::Adj(fields));
             } else if self.rng.chance(1, 4) {
                 let a = self.required_named_field();
                 let b = self.named_field();
